@@ -153,6 +153,18 @@ func TestVerifIrc(t *testing.T) {
 			fmt.Fprintln(out, "ok")
 		case "E":
 			fmt.Fprintln(out, h.entry(f))
+		case "G": // G <id> <reply>: session lookup as the API does it
+			_, err := h.i.GetSession(robust.Id{Id: iu64(f[1]), Reply: iu64(f[2])})
+			switch err {
+			case nil:
+				fmt.Fprintln(out, "found")
+			case ircserver.ErrNoSuchSession:
+				fmt.Fprintln(out, "nosuch")
+			case ircserver.ErrSessionNotYetSeen:
+				fmt.Fprintln(out, "notyet")
+			default:
+				fmt.Fprintln(out, "error")
+			}
 		case "D":
 			fmt.Fprintln(out, ircserver.VerifDump(h.i))
 		case "W":
